@@ -72,6 +72,70 @@ class C10(Prop):
     def strategy(self, tier):
         return pipegen.pipelines(max_depth=3).map(lambda c: dict(c, op="pipe2"))
 
+    # ---- E2 part: genuinely nested static view types (generated programs shared with C09 / C11) ----
+    engines = ["hypothesis+sanitized-cpp-server", "generated programs (E2 progen)"]
+
+    def extra_phases(self, ctx):
+        from .. import e2
+        from ..core import chash, load_known
+        stats = ctx["stats"]
+        known = {e["id"] for e in load_known("C10") if e.get("status") == "known"}
+        units = e2.view_suite(ctx["tier"], ctx["seed"])
+        results = e2.run_units(units)
+        ctx["info"]["progen_units"] = len(units)
+        fails = []
+        for r in results:
+            u = units[r["u"]]
+            key = "e2-rendering:" + r["status"]
+            stats.classes[key] = stats.classes.get(key, 0) + 1
+            if r["status"] == "rejected_compile":
+                stats.rejected["rejected_compile"] = stats.rejected.get("rejected_compile", 0) + 1
+            if r["status"] != "ok":
+                continue
+            rec = r["rec"]
+            lks, aks = u["renderings"][r["r"]]
+            stats.evaluations += 1
+            if len(u["case"]["stages"]) >= 2 or any(k != "ds_db" for k in lks):
+                stats.nontrivial.add(chash({"c": u["case"], "k": [lks, aks], "cfg": u.get("cfg")}))
+            obs = rec["obs"]
+            if obs.get("hv") is False:
+                continue
+            clipped = any(k.startswith("ls_") for k in lks) or any(v == "cl" for d in aks for v in d.values())
+            for key in ("eval", "eval_col"):
+                if key not in rec:
+                    continue
+                if key == "eval_col" and clipped and "C10-column-major-eval-clipped-shape" in known:
+                    stats.rejected["excluded_by_known_finding:C10-column-major-eval-clipped-shape"] = stats.rejected.get("excluded_by_known_finding:C10-column-major-eval-clipped-shape", 0) + 1
+                    continue
+                ev = rec[key]
+                if ev.get("shape") != obs.get("shape") or ev.get("elems") != obs.get("elems"):
+                    fails.append(({"_external": True, "case": u["case"], "kinds": [lks, aks], "cfg": u.get("cfg", "gcc"), "path": key},
+                                  "%s of a statically nested view differs from the lazy view: shape %s elems %s vs lazy shape %s elems %s [leaf=%s attr=%s cfg=%s]" % (
+                                      key, ev.get("shape"), str(ev.get("elems"))[:80], obs.get("shape"), str(obs.get("elems"))[:80], lks, aks, u.get("cfg", "gcc")), {}))
+                    break
+        return fails
+
+    def replay_external(self, case):
+        from .. import e2
+        unit = {"case": case["case"], "renderings": [tuple(case["kinds"])], "cfg": case.get("cfg", "gcc")}
+        out = []
+        for r in e2.run_units([unit]):
+            if r["status"] != "ok":
+                continue
+            rec = r["rec"]
+            for key in ("eval", "eval_col"):
+                if key in rec and (rec[key].get("shape") != rec["obs"].get("shape") or rec[key].get("elems") != rec["obs"].get("elems")):
+                    out.append((case, "%s differs from the lazy view" % key, {}))
+                    break
+        return out
+
+    def features(self, case, failure):
+        if case.get("_external"):
+            lks, aks = case.get("kinds") or ([], [])
+            clipped = any(k.startswith("ls_") for k in lks) or any(v == "cl" for d in aks for v in d.values())
+            return {"path": case.get("path") or ("eval_col" if "eval_col" in str(failure) else "eval"), "uses_clipped": clipped}
+        return {}
+
     def nontrivial(self, case):
         return len(case["stages"]) >= 2
 
